@@ -39,6 +39,7 @@ class AsyncRSocketConsumer(AsyncWebsocketConsumer):
     async def disconnect(self, close_code):
         """Handle WebSocket disconnect."""
         if self.transport:
+            self.transport._incoming_frame_queue.put_nowait(RSocketTransportError())
             await self.transport.close()
 
     async def receive(self, text_data=None, bytes_data=None):
